@@ -176,6 +176,7 @@ fn wire_case(rng: &mut Rng, ctx: &mut Ctx, idx: u64) {
         ctx.violation_class("handler-metadata-differs", if pad { "padding-peer" } else { "plain-peer" }, e);
     }
     // what the server put on the wire
+    let empty_md: MetaSpec = Vec::new();
     let resp_parts = rtap.lock().unwrap();
     let trailers = ttap.lock().unwrap();
     if let Some(p) = resp_parts.first() {
@@ -185,7 +186,9 @@ fn wire_case(rng: &mut Rng, ctx: &mut Ctx, idx: u64) {
             ctx.count("wire.status_seen");
             check_wire(ctx, "status-trailers-only", &p.headers, &st.meta);
         } else {
-            check_wire(ctx, "response", &p.headers, &init_md);
+            // a handler that failed before returning a Response never attached initial metadata
+            let no_response_object = fails && (up_front || !streaming);
+            check_wire(ctx, "response", &p.headers, if no_response_object { &empty_md } else { &init_md });
             if fails {
                 match trailers.first() {
                     Some(t) => {
